@@ -476,6 +476,16 @@ func checkFileCase(t ev.T, test string, c FileCase) {
 			case "updown":
 				_ = fs.MkDir(filepath.Join(dir, "x"))
 				hp = dir + sep + "x" + sep + ".." + sep + name
+			case "symlink":
+				// the path is a symbolic link to the file (OS backend): what is hashed is the file's content, all of it
+				target := filepath.Join(dir, "target-"+name)
+				if err := os.WriteFile(target, nil, 0o644); err != nil {
+					t.Fatalf("HARNESS: %v", err)
+				}
+				_ = os.Remove(p)
+				if err := os.Symlink(target, p); err != nil {
+					t.Fatalf("HARNESS: %v", err)
+				}
 			case "link":
 				real := filepath.Join(dir, "real")
 				if err := fs.MkDir(filepath.Join(real, "sub")); err != nil {
@@ -552,8 +562,8 @@ func TestFileHash(t *testing.T) {
 		for i := 0; i < n; i++ {
 			c.Contents = append(c.Contents, genContent(rt, fmt.Sprintf("c%d", i)))
 		}
-		c.Spelling = rapid.SampledFrom([]string{"", "", "dot", "double", "updown", "link"}).Draw(rt, "spelling")
-		if c.Spelling == "link" && c.Backend != "os" {
+		c.Spelling = rapid.SampledFrom([]string{"", "", "dot", "double", "updown", "link", "symlink"}).Draw(rt, "spelling")
+		if (c.Spelling == "link" || c.Spelling == "symlink") && c.Backend != "os" {
 			c.Spelling = "updown"
 		}
 		key, _ := json.Marshal(c)
